@@ -230,6 +230,7 @@ impl MultiTrainDataGenerator {
 
 //@unit src/data/loading.rs fn next_idx impl=^impl\sMultiTrainDataGenerator$
 //@rule R6_weighted_arm
+    #[verifier::loop_isolation(false)]
     fn next_idx(&mut self)
         requires old(self).wf_mid(), old(self).some_unfinished(),
         ensures
